@@ -142,8 +142,39 @@ def swc_document(draw, max_rows=25, family="default", allow_unrequested=True, un
         ids = [base + i for i in range(n)]
         order = list(range(n))
     else:
-        ids = draw(st.lists(st.integers(0, 10 ** 6), min_size=n, max_size=n, unique=True))
-        order = list(draw(st.permutations(range(n))))
+        # how the file numbers and lists its nodes: scattered ids in any row order; a gap-free id range in any row order;
+        # a gap-free range whose first row is the root with the smallest id (the rest shuffled); rows listed parents
+        # first while the ids count down or are scattered (ids that do not grow from parent to child)
+        id_mode = draw(st.sampled_from(["sparse", "sparse", "dense-shuffled", "dense-root-min-first",
+                                        "parents-first-ids-down", "parents-first-ids-scattered"]))
+        base = draw(st.sampled_from([0, 1, 1, 5, 11, 1000]))
+        if id_mode == "sparse":
+            ids = draw(st.lists(st.integers(0, 10 ** 6), min_size=n, max_size=n, unique=True))
+            order = list(draw(st.permutations(range(n))))
+        elif id_mode == "dense-shuffled":
+            ids = [base + v for v in draw(st.permutations(range(n)))]
+            order = list(draw(st.permutations(range(n))))
+        elif id_mode == "dense-root-min-first":
+            root = parents.index(-1)
+            others = [i for i in range(n) if i != root]
+            lab = list(draw(st.permutations(range(1, n))))
+            ids = [0] * n
+            ids[root] = base
+            for i, v in zip(others, lab):
+                ids[i] = base + v
+            order = [root] + list(draw(st.permutations(others)))
+        else:
+            from vlib import models as _models
+
+            order = _models.topo_order(parents)
+            if id_mode == "parents-first-ids-down":
+                step = draw(st.sampled_from([1, 1, 3]))
+                ids = [0] * n
+                for k, i in enumerate(order):
+                    ids[i] = base + step * (n - 1 - k)
+            else:
+                ids = draw(st.lists(st.integers(0, 10 ** 6), min_size=n, max_size=n, unique=True))
+        feats_id_mode = id_mode
     n_req = draw(st.sampled_from([0, 0, 0, 1, 2]))
     feats = set()
     lines = []  # (text, kind)
@@ -227,7 +258,7 @@ def swc_document(draw, max_rows=25, family="default", allow_unrequested=True, un
     return {"lines": lines, "rows": rows, "comments": comments, "eol": eol,
             "final_newline": final_newline, "n_req": n_req, "unrequested": any_unrequested,
             "features": sorted(feats), "family": family, "parents": parents,
-            "root_first": order[0] == 0}
+            "root_first": order[0] == 0, "id_mode": feats_id_mode if family != "default" else "default"}
 
 
 def render(doc) -> str:
